@@ -169,7 +169,7 @@ class ImmutableKnotVector(tuple):
         except TypeError:
             return False
         umin, umax = self.limits
-        if node < umin or umax < node:
+        if not (umin <= node <= umax):  # also refuses nan
             return False
         return True
 
